@@ -28,6 +28,11 @@ def obligations(tier):
     for ng in ([2, 3] if tier == "quick" else [1, 2, 3]):
         obs.append(Ob(f"C09.integrated.N{ng}", "CH", "harness.h_integrated", "global_section", 900, {"VF_NG": ng},
                       funcs=(GL + "GlobalEventsTrack.from_chart_lines", TR + "build_events_from_data"), bounds=f"{ng} token lines with symbolic kinds, ticks and string values"))
+    for rk in range(9):
+        obs.append(Ob(f"C09.dispatcher_runs.k{rk // 3}{rk % 3}", "CH", "harness.h_track", "dispatcher_runs", 900, {"VF_RUNK": rk, "VF_RUNMAX": 8 if tier == "quick" else 12},
+                      funcs=("chartparse.track.parse_data_from_chart_lines",),
+                      bounds="a run of 0..8 (12) lines of one kind, optionally an unparsable line, 0..2 lines of a second kind, then a line accepted by any "
+                             "subset of the three kinds: first accepting kind in the caller's order wins, whatever came before"))
     return obs
 
 
